@@ -42,6 +42,12 @@ EDITS = {
     "S10-quantise_scale-shift-range": ("semantic", "ethosu/vela/scaling.py",
         "    if not (0 <= shift < (1 << 6)):\n        # Shift outside of valid range, set scale to 0\n        return 0, 16\n\n    return significand_q31, shift",
         "    if not (0 <= shift <= (1 << 6)):\n        # Shift outside of valid range, set scale to 0\n        return 0, 16\n\n    return significand_q31, shift"),
+    "S11-get_address-tile-offset": ("semantic", "ethosu/vela/register_command_stream_util.py",
+        "        x -= fm.tiles.width_0\n        t = 1\n", "        t = 1\n"),
+    "S12-range_lists_overlap-inner-none-check-dropped": ("semantic", "ethosu/vela/register_command_stream_util.py",
+        "            if range2 is not None and ranges_overlap(range1, range2):", "            if ranges_overlap(range1, range2):"),
+    "S13-area-ranges-tile1-condition": ("semantic", "ethosu/vela/register_command_stream_util.py",
+        "    if x1 >= width_0 and y0 < height_1:", "    if x1 > width_0 and y0 < height_1:"),
     # harmless rewrites
     "H1-rename-local": ("harmless", "ethosu/vela/fp_math.py", "ab_plus_nudge", "abn"),
     "H2-swap-independent-assignments": ("harmless", "ethosu/vela/fp_math.py",
@@ -53,6 +59,9 @@ EDITS = {
         "def round_up(a, b):\n", "def round_up(a: int, b: int) -> int:\n    # rounds a up to a multiple of b\n"),
     "H5-shr-as-floordiv": ("harmless", "ethosu/vela/fp_math.py",
         "    result = x >> exponent\n", "    result = x // (1 << exponent)\n"),
+    "H7-listcomp-variable-renamed": ("harmless", "ethosu/vela/register_command_stream_util.py",
+        "    return [get_address_range(fm, strides, y, x0, c0, y, x1, c1) for y in range(y0, y1 + 1)]",
+        "    return [get_address_range(fm, strides, row, x0, c0, row, x1, c1) for row in range(y0, y1 + 1)]"),
     "H6-reassociated-sum": ("harmless", "ethosu/vela/numeric_util.py",
         "    return ((a + b - 1) // b) * b", "    return ((a - 1 + b) // b) * b"),
 }
